@@ -8,6 +8,7 @@ package txn
 import (
 	"fmt"
 	"go/types"
+	"regexp"
 	"sort"
 	"strings"
 
@@ -420,6 +421,14 @@ func checkCombinator(p *load.Program, s *oblig.Set, fn *ssa.Function, parserT ty
 		if lookAhead[name] && pi.pos != "p0" {
 			report("X4", key("look-ahead consumes nothing"), "a look-ahead combinator returns with the input at "+pi.pos+" instead of where it started", pi)
 		}
+		// X8 what a failed sub-parser built is not part of a successful result
+		if pi.retErr == "nil" {
+			for _, e := range pi.events {
+				if e.kind == "P" && !e.ok && strings.Contains(pi.retRes, e.res+")") || e.kind == "P" && !e.ok && strings.HasSuffix(pi.retRes, e.res) || e.kind == "P" && !e.ok && strings.Contains(pi.retRes, e.res+",") {
+					report("X8", key("a failed alternative contributes no nodes"), fmt.Sprintf("sub-parser %s failed and its input was given back, but the nodes it had built so far (sequences return their partial result with the error) are part of the successful result %s", e.name, pi.retRes), pi)
+				}
+			}
+		}
 		// X3 a successful sub-parser whose result is returned keeps its input consumed
 		if pi.retErr == "nil" {
 			for _, e := range pi.events {
@@ -433,6 +442,7 @@ func checkCombinator(p *load.Program, s *oblig.Set, fn *ssa.Function, parserT ty
 		{"X1", "balance", "every Snapshot is matched by exactly one Rollback or Commit on every returning path"},
 		{"X2", "failed alternative consumes nothing", "whenever a failed sub-parser is not propagated, the input is back where that sub-parser started"},
 		{"X3", "success keeps the input consumed", "input consumed by a sub-parser whose result is returned is never rolled back"},
+		{"X8", "a failed alternative contributes no nodes", "no successful result contains nodes built by a sub-parser that failed"},
 	} {
 		if !bad[r.rule+key(r.k)] && nRet > 0 {
 			s.OK(r.rule, key(r.k), pos, fmt.Sprintf("%s (%d returning paths)", r.ok, nRet))
@@ -449,6 +459,8 @@ func checkCombinator(p *load.Program, s *oblig.Set, fn *ssa.Function, parserT ty
 
 // tlexer (X5, X6): the transaction primitives and accessors of the
 // transactional lexer.
+var liveField = regexp.MustCompile(`^\.(\w+)\(LEXER\)$`)
+
 func tlexer(p *load.Program, s *oblig.Set) {
 	sp := p.SPkg("lexer")
 	if sp == nil {
@@ -601,7 +613,7 @@ func tlexer(p *load.Program, s *oblig.Set) {
 			// those are what Snapshot/Rollback/Commit restore or deliberately keep
 			foreign := ""
 			for _, cl := range in.CondLog {
-				if !strings.Contains(cl, "(RP,(WP-1))") && !strings.Contains(cl, "lexer.Next()") {
+				if !strings.Contains(cl, "(RP,(WP-1))") && !strings.Contains(cl, "lexer.Next()") && !strings.Contains(cl, "LEXER") {
 					foreign = cl
 				}
 			}
@@ -630,17 +642,29 @@ func tlexer(p *load.Program, s *oblig.Set) {
 				es, _ := appended.(*absint.Struct)
 				okf := es != nil && rp == "(RP+1)" && wp == "(WP+1)"
 				if okf {
+					// each cached field is the live lexer's field of the same
+					// meaning, unedited (no arithmetic, no choice between values)
+					seenF := map[string]bool{}
 					for i := 0; i < est.NumFields(); i++ {
 						fk := absint.Key(es.F[i])
-						if !strings.Contains(fk, "LEXER") {
+						m := liveField.FindStringSubmatch(fk)
+						if m == nil || seenF[m[1]] || !strings.EqualFold(m[1], est.Field(i).Name()) && !(est.Field(i).Name() == "token" && m[1] == "Token") {
 							okf = false
+						}
+						if m != nil {
+							seenF[m[1]] = true
+						}
+					}
+					for _, cl := range in.CondLog {
+						if strings.Contains(cl, "LEXER") {
+							okf = false // what is cached does not depend on what the token is
 						}
 					}
 				}
 				if okf {
 					s.OK("X6", k+" / pull", p.Pos(nextFn.Pos()), "a new token is cached with the live lexer's token, error and span; readp and writep advance")
 				} else {
-					s.Bad("X6", k+" / pull", p.Pos(nextFn.Pos()), fmt.Sprintf("a pulled token must be cached completely (token, error, span from the live lexer) and both positions advanced: entry=%s readp=%s writep=%s", absint.Key(appended), rp, wp))
+					s.Bad("X6", k+" / pull", p.Pos(nextFn.Pos()), fmt.Sprintf("a pulled token must be cached as the live lexer delivered it (token, error, from, to taken from the lexer's fields of the same name, unedited, on every path) and both positions advanced: entry=%s readp=%s writep=%s", absint.Key(appended), rp, wp))
 				}
 			case isC && !b && rp == "RP" && wp == "WP":
 				// end of input
